@@ -1442,7 +1442,9 @@ lbool CoreSMTSolver::search(int nof_conflicts)
         search_counter++;
         CRef confl = propagate();
         runPeriodic();
-        if (not okContinue()) { break; }
+        // A conflict that has been found must be handled even when a stop request has arrived: propagate() has already
+        // marked the whole trail as propagated, so a conflict dropped at decision level 0 would never be seen again
+        if (confl == CRef_Undef and not okContinue()) { break; }
         if (confl != CRef_Undef) {
             if (conflicts > conflictsUntilFlip) {
                 flipState = not flipState;
